@@ -33,6 +33,11 @@ def build_cases(rng, work, n_frames, few_cuts):
             cuts = rng.sample(cuts, min(len(cuts), 14))
         for c in cuts:
             items.append((fr[:c], desc, True))
+    # frames larger than the default snaplen of a newly written file (loopback / offloaded captures)
+    for _ in range(max(2, n_frames // 60)):
+        fr, desc = pkt.rand_frame(rng, well_formed=True)
+        big = fr + pkt.rand_bytes(rng, 16) * rng.choice([4100, 4200, 4400])
+        items.append((big[:rng.choice([65535, 65536, 65537, 65550, 70000])], desc, False))
     rng.shuffle(items)
     batches = [items[i:i + BATCH] for i in range(0, len(items), BATCH)]
     cases = []
@@ -41,7 +46,8 @@ def build_cases(rng, work, n_frames, few_cuts):
         inp = os.path.join(work, "in%d.pcap" % bi)
         # wire length >= captured length (snapped records): the record header must survive reads as well
         recs = [(1000 + k, 7 * k, fr, None, len(fr) + rng.choice([0, 0, 1, 40, 1454, 70000])) for k, (fr, _, _) in enumerate(batch)]
-        snap = rng.choice([65535, 262144, max(len(fr) for fr, _, _ in batch)])
+        longest = max(len(fr) for fr, _, _ in batch)
+        snap = rng.choice([65535, 262144, longest]) if longest <= 65535 else rng.choice([262144, longest])
         with open(inp, "wb") as f:
             f.write(pkt.pcap_file(recs, snaplen=snap, magic=rng.choice([pkt.MAGIC_US, pkt.MAGIC_NS])))
         outp = os.path.join(work, "out%d.pcap" % bi)
